@@ -297,6 +297,16 @@ func vcaSubmit(t *testing.T, cs *vcaCase, order []int, rep int) (fin []int, err 
 		en := cs.O.Es[i]
 		v := Vote{Hash: e.hashes[en.B-1], Number: uint32(e.headers[en.B-1].Number)}
 		sig := vgpSign(en.ID, precommit, v, en.Sig)
+		if en.Sig != "ok" && (i+rep)%2 == 0 {
+			// another way for a signature to be invalid: the genuine signature of ANOTHER
+			// authority for the same vote, replayed under this entry's id
+			for _, d := range cs.O.Es {
+				if d.Sig == "ok" && d.B == en.B && d.ID != en.ID {
+					sig = vgpSign(d.ID, precommit, v, "ok")
+					break
+				}
+			}
+		}
 		for k := 0; k < rep; k++ {
 			cm.Precommits = append(cm.Precommits, v)
 			cm.AuthData = append(cm.AuthData, AuthData{Signature: sig, AuthorityID: vgpKey(en.ID).Public().(*ed25519.PublicKey).AsBytes()})
